@@ -6,6 +6,7 @@ package gnet
 // histories; each property evaluates its own monitor on every explored execution.
 
 import (
+	"bytes"
 	"fmt"
 	"os"
 	"strings"
@@ -293,6 +294,68 @@ func lifeConfigs() []lifeCfg {
 			w.ctl(&done, 2, nil)
 		}
 	})
+	// 9b. a read deferred by the framework itself (ET: the per-event chunk limit is reached with the
+	// read buffer full, so eventloop.read0 is queued as a task) for a connection that is closed before
+	// the task runs, while a new connection takes over its descriptor number
+	add("queued-read-fd-reuse", []string{"nonnil", "any"}, func(w *world, c *lifeCfg) {
+		w.opts = append(w.opts, WithReadBufferCap(1024), WithEdgeTriggeredIOChunk(1024))
+		bSent, aClosed := false, false
+		w.onTraffic = func(w *world, ci *connInfo) Action {
+			b, _ := ci.c.Next(-1)
+			ci.consumed = append(ci.consumed, b...)
+			if ci.id == 0 && ci.traffics == 1 {
+				// hold the loop inside A's first callback until A's peer has closed: the FIN is then
+				// handled in the same batch as, and before, the queued read
+				// (SO_REUSEPORT mode, where the loop accepts inline: B is already waiting in the listen
+				// queue too, so that it is accepted between A's close and the queued read)
+				sched.BlockUntil(func() bool { return aClosed && (!c.tcp || bSent) })
+			}
+			return None
+		}
+		w.script = func(w *world) {
+			if c.tcp {
+				sched.SetSettle(6) // loopback TCP delivers asynchronously
+			}
+			done := 0
+			msgB := []byte("data-of-B")
+			w.peerThread("peerA", &done, func(p *peer) {
+				if !p.connect() {
+					return
+				}
+				a := make([]byte, 1024)
+				for i := range a {
+					a[i] = 'a'
+				}
+				p.send(a)
+				sched.BlockUntil(func() bool { return len(w.conns) > 0 && w.conns[0].traffics > 0 })
+				p.close()
+				aClosed = true
+			})
+			w.peerThread("peerB", &done, func(p *peer) {
+				if c.tcp {
+					sched.BlockUntil(func() bool { return aClosed })
+				} else {
+					sched.BlockUntil(func() bool { return len(w.conns) > 0 && w.conns[0].closes > 0 })
+				}
+				if !p.connect() {
+					return
+				}
+				p.send(msgB)
+				bSent = true
+				sched.BlockUntil(func() bool { return len(w.conns) > 1 && w.conns[1].traffics > 0 })
+				sched.WaitIdle()
+				a, b := w.conns[0], w.conns[1]
+				if a.fd != b.fd {
+					w.obs = append(w.obs, "no-fd-reuse")
+				}
+				if !bytes.Equal(b.consumed, msgB) {
+					w.violate("late:wrongconn", "connection #1 (descriptor %d, re-used from #0: %v) was offered %q, its peer sent %q; connection #0 consumed %d bytes of the 1024 its peer sent", b.fd, a.fd == b.fd, b.consumed, msgB, len(a.consumed))
+				}
+				p.close()
+			})
+			w.ctl(&done, 2, nil)
+		}
+	})
 	// 10. engine shutdown with two idle connections
 	add("shutdown-two-idle", []string{"nil", "nil"}, func(w *world, c *lifeCfg) {
 		w.script = func(w *world) {
@@ -454,9 +517,9 @@ func lifeConfigs() []lifeCfg {
 		// (as built: no scenario is selected. Loopback TCP delivers data and FINs asynchronously, so the
 		// per-scenario expectations about who closed first and the scheduler's "nobody is enabled"
 		// test are not sound there; the machinery is kept for experiments with MC_TCP=1.)
-		picks := []string{}
+		picks := []string{"queued-read-fd-reuse/"} // needs inline accepts; written for asynchronous delivery
 		if os.Getenv("MC_TCP") == "1" {
-			picks = []string{"peer-close/", "action-close-traffic/", "elclose-in-traffic/", "write-fail-in-traffic/", "relay-close/"}
+			picks = []string{"queued-read-fd-reuse/", "peer-close/", "action-close-traffic/", "elclose-in-traffic/", "write-fail-in-traffic/", "relay-close/"}
 		}
 		for _, pick := range picks {
 			if strings.HasPrefix(c.name, pick) {
@@ -590,6 +653,16 @@ func runEngineCheckExtra(t *testing.T, prop string, cfgs []sched.Config, names f
 	var res seqmc.Result
 	res.Property = prop
 	light := os.Getenv("MC_LIGHT") == "1"
+	if only := os.Getenv("MC_ONLY"); only != "" {
+		// development aid: restrict the run to the scenarios whose name contains MC_ONLY
+		var keep []sched.Config
+		for _, c := range cfgs {
+			if strings.Contains(c.Name, only) {
+				keep = append(keep, c)
+			}
+		}
+		cfgs = keep
+	}
 	for i, c := range cfgs {
 		c.Deadline = sched.FairDeadline(c.Deadline, i, len(cfgs))
 		if light && len(c.Bounds) > 3 {
@@ -663,6 +736,9 @@ func clientConfigs(prop string) []sched.Config {
 		m := map[bool]string{false: "LT", true: "ET"}[et]
 		out = append(out,
 			sched.Config{Property: prop, Name: "client-udp/" + m, Bounds: engineBounds(2, 3, 0), Horizon: 20000, Deadline: seqmc.Deadline(), DelayBounded: true, New: func() sched.Scenario { return clientUDPWorld(et) }},
+			sched.Config{Property: prop, Name: "client-udp-late-ops/" + m, Bounds: engineBounds(2, 3, 0), Horizon: 20000, Deadline: seqmc.Deadline(), DelayBounded: true, New: func() sched.Scenario { return clientUDPLateWorld(et) }},
+			sched.Config{Property: prop, Name: "client-enroll-fault/" + m, Bounds: []sched.Bound{{PB: 0, DB: 0}, {PB: 0, DB: 1}, {PB: 1, DB: 1}}, Horizon: 40000, Deadline: seqmc.Deadline(), DelayBounded: true, New: func() sched.Scenario { return clientEnrollFaultWorld(et) }},
+			sched.Config{Property: prop, Name: "client-two-loops/" + m, Bounds: engineBounds(1, 2, 0), Horizon: 20000, Deadline: seqmc.Deadline(), DelayBounded: true, New: func() sched.Scenario { return clientTwoLoopWorld(et) }},
 			sched.Config{Property: prop, Name: "client-stop/" + m, Bounds: engineBounds(2, 3, 0), Horizon: 20000, Deadline: seqmc.Deadline(), DelayBounded: true, New: func() sched.Scenario {
 				sc := clientStopWorld(et).(*clientWorld)
 				sc.checks = append(sc.checks, fdCheck)
